@@ -466,6 +466,17 @@ func (g *gen) genC16() {
 			addChain("random", g.types(g.rng.Intn(4), false), st)
 		}
 	}
+	// ---- neighbouring stages of assignable, NOT identical types: a pointer result received by an interface
+	// parameter (a nil pointer must arrive as an interface holding the typed nil: "passing results on unchanged")
+	for i, it := range []int{17, 11, 17, 11} {
+		n := 2 + i/2
+		st := make([][]int, n)
+		st[0] = append([]int{21}, g.types(i%2, true)...)
+		for j := 1; j < n; j++ {
+			st[j] = g.types(1+j%2, true)
+		}
+		g.add(&funcs.Class{Prop: "C16", Kind: "compose", Tag: "ptr-to-iface", Ins: g.types(i%3, false), Stages: st, IfaceParam: it})
+	}
 	// ---- fmap, error form
 	g.add(&funcs.Class{Prop: "C16", Kind: "fmape", Tag: "results:0", In: g.anyType()})
 	for _, t := range funcs.Types {
